@@ -22,7 +22,7 @@ RULE = (
     "(a) every key of the extension and file-name tables x {default, --multi-line, --single-line where the style supports it}; (b) every --style name x "
     "the same line modes on an unrecognised file; (c) Hypothesis: file type x --style x line mode x {none, --force-dot-license, --fallback-dot-license} x "
     "prefix x year options x template {default, prose, without contributors, pre-commented, with a fixed notice of its own} x body {empty, code, comment lines in the same style, "
-    "shebang / first-line declaration, blank-line runs} free of REUSE tags x {ordinary request, request that makes the header longer than 4 KiB} x {no merge, --merge-copyrights, with two statements of one holder, with a hand-written year range} x N in 2..4 runs.  Oracle: tree bytes identical after run 1 and every later "
+    "shebang / first-line declaration, blank-line runs} free of REUSE tags x {ordinary request, request that makes the header longer than 4 KiB} x {no merge, --merge-copyrights, with two statements of one holder, with a hand-written year range} x N in 2..4 runs; (d) requests with ties (names differing in letter case only, one holder under two equally frequent prefixes with --merge-copyrights): run 1 in-process, later runs in fresh interpreters under other PYTHONHASHSEED values.  Oracle: tree bytes identical after run 1 and every later "
     "run; every requested notice / licence / contributor line occurs once in the target file.  Non-trivial = not (python style, default options, empty "
     "body); distinct by case."
 )
@@ -62,6 +62,57 @@ def case(draw):
             "many": draw(st.integers(0, 7)) == 0,
             # --merge-copyrights, sometimes with statements of one holder that differ in the year only, or a hand-written year range
             "merge": draw(st.sampled_from([None, None, None, "plain", "same-holder", "year-range"]))}
+
+
+@st.composite
+def hashseed_case(draw):
+    """Requests whose rendering could depend on the order in which a set yields its items (ties): names that differ in letter case only,
+    one holder under two prefixes with --merge-copyrights.  Run 1 in this process, the later runs in fresh interpreters with other hash seeds."""
+    twins = [["ACME Corp", "Acme Corp"], ["jane doe", "Jane Doe", "JANE DOE"], ["Zoë Müller", "ZOË MÜLLER"]]
+    holders = draw(st.sampled_from(twins))
+    contributors = draw(st.sampled_from([[], ["Mary Major", "MARY MAJOR"], ["john roe", "John Roe"]]))
+    merge = draw(st.sampled_from([None, None, "prefix-tie", "plain"]))
+    style = draw(st.sampled_from(["python", "c", "html", "lisp"]))
+    return {"holders": holders, "contributors": contributors, "merge": merge, "style": style,
+            "hashseeds": draw(st.lists(st.integers(1, 4000), min_size=2, max_size=3, unique=True)), "dot": draw(st.sampled_from([None, None, "force"]))}
+
+
+def check_hashseed(ctx, c):
+    name = "file" + S.EXT_FOR_STYLE[c["style"]]
+    root = ctx.fresh_dir()
+    try:
+        body = "code\n"
+        if c["merge"] == "prefix-tie":
+            # a hand-written notice under another prefix than the one requested, same holder and year: the two prefixes are equally frequent
+            lines = [f"Copyright 2019 {c['holders'][0]}", "", "SPDX-License-Identifier: MIT"]
+            body = "\n".join(S.wrap_single(c["style"], lines) if S.has_single(c["style"]) else S.wrap_block(c["style"], lines)) + "\n\ncode\n"
+        tree.write_tree(root, {name: body.encode("utf-8")})
+        args = ["annotate", "--license", "MIT", "--year", "2019"]
+        for h in c["holders"] if c["merge"] != "prefix-tie" else c["holders"][:1]:
+            args += ["--copyright", h]
+        for x in c["contributors"]:
+            args += ["--contributor", x]
+        if c["merge"]:
+            args.append("--merge-copyrights")
+        if c["dot"] == "force" and c["merge"] != "prefix-tie":
+            args.append("--force-dot-license")
+        args.append(name)
+        r1 = cli.run(args, root)
+        if r1.crash is not None or r1.code != 0:
+            ctx.fail(c, f"annotate failed: {r1.brief()}")
+        snap1 = AN.snapshot(root)
+        ctx.count(c, nontrivial=True, labels=["later-runs-under-other-hash-seeds", f"hashseed:merge={c['merge']}", f"hashseed:style={c['style']}"],
+                  sample={"args": args, "hashseeds": c["hashseeds"]})
+        for hs in c["hashseeds"]:
+            r = cli.run_sub(args, root, hashseed=hs)
+            if r.crash is not None or r.code != 0:
+                ctx.fail(c, f"run under PYTHONHASHSEED={hs} failed: {r.brief()}")
+            snap = AN.snapshot(root)
+            if snap != snap1:
+                diff = sorted(p for p in set(snap) | set(snap1) if snap.get(p) != snap1.get(p))
+                ctx.fail(c, f"a run with identical arguments in a fresh interpreter (PYTHONHASHSEED={hs}) changed {diff}: after run 1 {snap1.get(diff[0])!r}, now {snap.get(diff[0])!r}")
+    finally:
+        tree.rmtree(root)
 
 
 def check(ctx, c, walk=False):
@@ -164,6 +215,8 @@ def check(ctx, c, walk=False):
 
 
 def replay(ctx, c):
+    if "hashseeds" in c:
+        return check_hashseed(ctx, c)
     check(ctx, c, walk=c.get("walk", False))
 
 
@@ -187,3 +240,5 @@ def run(ctx):
             check(ctx, j, walk=True)
     ctx.extra["exhaustive_subspaces"] = [f"{len(names)} table keys x 3 line modes", f"{len(S.STYLES)} --style names x 3 line modes x 4 bodies"]
     hyp_run(ctx, "options", case(), lambda c: check(ctx, c), 500 if q else 8000)
+    # later runs in fresh interpreters under other string-hash seeds (a few: each costs an interpreter start)
+    hyp_run(ctx, "hashseed", hashseed_case(), lambda c: check_hashseed(ctx, c), 6 if q else 120)
